@@ -56,6 +56,7 @@ struct Handle {
 	std::shared_ptr<File> file;
 	uint64_t pos = 0;
 	bool rd = false, wr = false, append = false, closed = false;
+	int eintr_run = 0;            // consecutive writes answered with EINTR
 	int pending_err = 0;          // continuation of a short-then-error write
 	std::string pending_name;
 	FILE *fp = nullptr;
@@ -122,6 +123,7 @@ void fire(const char *on, const std::string &err) { S().fired[std::string(on) + 
 void push(Op &&op) {
 	State &s = S();
 	if (!s.log_reads && (op.kind == OP_READ || op.kind == OP_SEEK)) return;
+	if (s.log.size() >= (size_t(1) << 21)) return;   // a caller spinning on a persistent error must not exhaust memory
 	s.log.push_back(std::move(op));
 }
 
@@ -155,8 +157,14 @@ ssize_t kwrite(Handle &h, const uint8_t *p, size_t n) {
 		} else {
 			int e = errno_from_name(f->err);
 			if (!e) e = EIO;
-			fire("write", f->err);
-			return fail(e, f->err);
+			// EINTR means "try again": a caller that does so must get through eventually. A persistent EINTR
+			// fault therefore interrupts a handle at most three times in a row; the next attempt succeeds.
+			bool let_through = false;
+			if (e == EINTR) { if (h.eintr_run >= 3) { h.eintr_run = 0; let_through = true; } else h.eintr_run++; }
+			if (!let_through) {
+				fire("write", f->err);
+				return fail(e, f->err);
+			}
 		}
 	} else if (const Fault *q = quota()) {
 		uint64_t lim = (uint64_t)(q->arg < 0 ? 0 : q->arg);
